@@ -14,3 +14,4 @@ INVARIANT TypeInv
 INVARIANT RingViewInv
 INVARIANT FifoInv
 ACTION_CONSTRAINT Emit
+CHECK_DEADLOCK FALSE
